@@ -1180,7 +1180,7 @@ class XsdElement(XsdComponent, ParticleMixin,
             elif self.max_occurs == 0 and check_occurs:
                 return True  # type is not effective if the element can't have occurrences
             elif not self.is_consistent(other) and self.type.elem is not other.type.elem and \
-                    not self.type.is_derived(other.type, 'restriction') and not other.type.abstract:
+                    not self.type.is_derived(other.type, 'restriction'):
                 return False
             elif other.fixed is not None and \
                     (self.fixed is None or self.type.normalize(
